@@ -31,8 +31,7 @@ from .validation import preprocess_declarations
 from .validation.descriptors import preprocess_descriptors
 
 from .utils import (  # isort:skip
-    InvalidValues, Pending, check_var_function, get_url, parse_function,
-    remove_whitespace)
+    InvalidValues, Pending, check_var_function, get_url, remove_whitespace)
 
 # Reject anything not in here:
 PSEUDO_ELEMENTS = (
@@ -592,12 +591,12 @@ def resolve_var(computed, token, parent_style, parent_variables=()):
         return resolve_var(
             computed, token, parent_style, parent_variables) or (token,)
 
-    args = parse_function(token)[1]
-    variable_name = args.pop(0).value.replace('-', '_')  # first arg is name
+    args = remove_whitespace(token.arguments)
+    variable_name = args[0].value.replace('-', '_')  # first arg is name
     if variable_name in parent_variables:
         # Cyclic variables are invalid, handle them as undefined variables.
         return []
-    default = args  # next args are default value
+    default = args[2:]  # default value is after the first comma, commas included
     computed_value = []
     if values := computed[variable_name]:
         parent_variables = (*parent_variables, variable_name)
